@@ -343,22 +343,11 @@ def pyset_selftest(rng, n):
     return len(cases), bad
 
 
-def run(ctx, consume):
-    """Runs the correspondence.  A disagreement is reported as a violation of the correspondence
-    glr_model_correspondence (no failing input) -- unless the impl's behaviour on that very case violates the
-    property text (decided by the reference enumerator) and is not the frozen baseline's
-    behaviour: then it is reported as a property violation with the input.
-    Returns the coverage sub-dict."""
-    quick = ctx.quick()
-    rng = ctx.rng
-    t0 = time.time()
-    jobs = gen_jobs(rng, quick, consume)
-    with mp.Pool(common.NPROC) as pool:
-        results = pool.map(worker, jobs, chunksize=1)
-    t_impl = time.time() - t0
+def _batch(ctx, consume, quick, results, st, xsample_c, xsample_o):
+    """model runs and comparison for the impl results of one batch of jobs"""
     fuel = FUEL_QUICK if quick else FUEL_THOROUGH
     mcases, meta = [], []
-    gerrs = {}
+    gerrs = st["grammars_not_built"]
     for r in results:
         if r["gerr"]:
             gerrs[r["gerr"]] = gerrs.get(r["gerr"], 0) + 1
@@ -370,12 +359,11 @@ def run(ctx, consume):
             meta.append((r, c))
     t1 = time.time()
     outs = common.model_run(mcases)
-    t_model = time.time() - t1
-    st = {"glr_model_cases": 0, "glr_model_agree": 0, "glr_model_disagree": 0, "skipped": {},
-          "forests": 0, "rejects": 0, "lexical_ambiguity_cases": 0, "nullable_grammar_cases": 0,
-          "cyclic_forests": 0, "forest_sizes": {"1-5": 0, "6-20": 0, "21-100": 0, ">100": 0},
-          "grammars": len(results), "grammars_not_built": gerrs,
-          "solutions_checked": 0, "timing_s": {"impl": round(t_impl, 1), "model": round(t_model, 1)}}
+    st["timing_s"]["model"] += time.time() - t1
+    for mc, mo in zip(mcases, outs):
+        if len(xsample_c) < 400 and len(common.sx_dump(mc[1])) < 6000:
+            xsample_c.append(mc)
+            xsample_o.append(mo)
     stat_cases, stat_meta = [], []
     for (r, c), mo in zip(meta, outs):
         kind, detail = compare(r, c, mo)
@@ -439,17 +427,17 @@ def run(ctx, consume):
         hcases.append((3, [r["grammar"], r["table"], start]))
         hcases.append((12, [r["grammar"], r["table"], r["stop"]]))
     houts = common.model_run(hcases)
-    st["tables"] = len(hcases) // 2
-    st["tables_table_struct_ok"] = sum(1 for o in houts[0::2] if o == 1)
-    st["tables_table_progress_ok"] = sum(1 for o in houts[1::2] if o == 1)
-    st["model_crash_results"] = sum(1 for mo in outs if mo[0] == 3)
+    st["tables"] += len(hcases) // 2
+    st["tables_table_struct_ok"] += sum(1 for o in houts[0::2] if o == 1)
+    st["tables_table_progress_ok"] += sum(1 for o in houts[1::2] if o == 1)
+    st["model_crash_results"] += sum(1 for mo in outs if mo[0] == 3)
     # the tokenisation theorem (C01_glr_model_valid_full): its boolean conditions are evaluated
     # on every case (command 212); where they hold and the model returns a forest, the verified
     # validator forest_ok must accept that forest (an instance of the theorem, re-checked)
     if consume:
         tcases = [(212, [mc[1][0], mc[1][1]]) for mc in mcases]
         touts = common.model_run(tcases)
-        st["tok_theorem_applicable"] = sum(1 for o in touts if o == 1)
+        st["tok_theorem_applicable"] += sum(1 for o in touts if o == 1)
         vcases, vmeta = [], []
         wsl = None
         for (r, c), mo, to in zip(meta, outs, touts):
@@ -459,7 +447,7 @@ def run(ctx, consume):
                     start = r["grammar"][0][1][0][1]
                     vcases.append((6, [r["grammar"], tp, c["chars"], c["rx"], r["ws"], start, 0, 1, 0]))
                     vmeta.append((r, c))
-        st["tok_theorem_instances_checked"] = len(vcases)
+        st["tok_theorem_instances_checked"] += len(vcases)
         for (r, c), vo in zip(vmeta, common.model_run(vcases)):
             if vo != 1:
                 ctx.violation("%s: forest_ok rejects a model forest although the conditions of "
@@ -475,6 +463,39 @@ def run(ctx, consume):
                           % (KEY, so[1], so[2], c["solutions"], c["ambiguities"]),
                           {"correspondence": KEY, "grammar": r["gtext"], "options": r["opts"],
                            "input": c["input"]}, no_input=True, key=KEY + "-count")
+
+
+def run(ctx, consume):
+    """Runs the correspondence.  A disagreement is reported as a violation of the correspondence
+    glr_model_correspondence (no failing input) -- unless the impl's behaviour on that very case violates the
+    property text (decided by the reference enumerator) and is not the frozen baseline's
+    behaviour: then it is reported as a property violation with the input.
+    The jobs are processed in batches to bound memory.  Returns the coverage sub-dict."""
+    quick = ctx.quick()
+    rng = ctx.rng
+    t0 = time.time()
+    jobs = gen_jobs(rng, quick, consume)
+    st = {"glr_model_cases": 0, "glr_model_agree": 0, "glr_model_disagree": 0, "skipped": {},
+          "forests": 0, "rejects": 0, "lexical_ambiguity_cases": 0, "nullable_grammar_cases": 0,
+          "cyclic_forests": 0, "forest_sizes": {"1-5": 0, "6-20": 0, "21-100": 0, ">100": 0},
+          "grammars": len(jobs), "grammars_not_built": {},
+          "solutions_checked": 0, "tables": 0, "tables_table_struct_ok": 0, "tables_table_progress_ok": 0,
+          "model_crash_results": 0, "timing_s": {"impl": 0.0, "model": 0.0}}
+    if consume:
+        st["tok_theorem_applicable"] = 0
+        st["tok_theorem_instances_checked"] = 0
+    xsample_c, xsample_o = [], []
+    B = 90
+    with mp.Pool(common.NPROC) as pool:
+        for b0 in range(0, len(jobs), B):
+            t1 = time.time()
+            results = pool.map(worker, jobs[b0:b0 + B], chunksize=1)
+            st["timing_s"]["impl"] += time.time() - t1
+            _batch(ctx, consume, quick, results, st, xsample_c, xsample_o)
+            del results
+    st["timing_s"]["impl"] = round(st["timing_s"]["impl"], 1)
+    st["timing_s"]["model"] = round(st["timing_s"]["model"], 1)
+    mcases, outs = xsample_c, xsample_o
     # cross-check a sample of the extracted model's outputs inside Coq
     nx, xok, xlog = common.coq_crosscheck(ctx.pid + "glr", mcases, outs, rng, sample=12 if quick else 40)
     if not xok:
